@@ -145,6 +145,34 @@ def check(run):
                 ok_ts = False
                 why = 'the full microsecond tick count (%s) is narrowed to 32 bits before it is split: timestamps wrap after 2^32 us (71.6 simulated minutes) and go backwards' % t[:90]
         sig_ts[kind] = txts
+        # the value that is split is the virtual clock reading counted from the clock's own epoch: besides now() no
+        # stored time point, member or other reading may enter it (a capture opened at t>0 must not shift its records)
+        foreign = []
+        for g, n in casts32:
+            t = q.render(g, n['e'], names=tn.get(id(g)))
+            if 'time_since_epoch' not in t and 'now' not in t:
+                continue
+            seen_d, todo_ = set(), [n['e']]
+            while todo_:
+                e_ = todo_.pop()
+                for x_ in walk(e_):
+                    if x_['k'] == 'ref' and x_.get('dk') == 'local':
+                        if x_.get('did') not in seen_d:
+                            seen_d.add(x_['did'])
+                            todo_.extend(d_ for _s, d_ in q.local_defs(g, x_['did']))
+                    elif x_['k'] in ('ref', 'member', 'mem', 'field') and x_.get('dk') != 'local':
+                        r_ = q.render(g, x_)
+                        if x_['k'] == 'ref' and x_.get('dk') in ('func', 'function', 'enum', 'enumerator'):
+                            continue
+                        if r_ and 'now' not in r_ and 'chrono' not in r_ and r_ not in foreign:
+                            foreign.append(r_)
+                    elif x_['k'] == 'call':
+                        cn_ = q.callee_name(x_) or ''
+                        if not any(w in cn_ for w in ('chrono', 'duration', 'time_point', 'operator', 'seconds', 'microseconds', 'milliseconds')) and cn_ not in foreign:
+                            foreign.append(cn_ + '()')
+        run.check(not foreign, 'R14', 'timestamp-from-epoch', PC + '::log_' + kind, f.loc(),
+                  'the record timestamp is computed from %s besides the virtual clock reading: records are no longer stamped with the virtual send time counted from the fixed capture epoch (e.g. a capture opened at t>0 shifts every record)' % ', '.join(foreign[:3]),
+                  'only high_resolution_clock::now() and constants enter the timestamp')
         run.check(ok_ts and (len(txts) >= 2 or bool(why)), 'R14', 'timestamp-split', PC + '::log_' + kind, f.loc(), why or 'seconds / sub-second microseconds idiom not found', 'seconds narrowed from whole seconds, microseconds from the sub-second remainder')
         ep = [v for g in ctxs for v in [q.local_var(g, 'sim_start_time')] if v]
         if not ep:
